@@ -197,8 +197,9 @@ func vCompareRegister(what string, got []vRegDay, want []vDayModel, ex vRegExpec
 // C02
 
 type c02Case struct {
-	S   vScenario `json:"s"`
-	Bin bool      `json:"bin"` // also through the real binary
+	S      vScenario `json:"s"`
+	Bin    bool      `json:"bin"`              // also through the real binary
+	Layout string    `json:"layout,omitempty"` // date format of the log ("" = default), given with --date-format
 }
 
 func c02NonTrivial(days []vDayModel, s vScenario) (bool, []string) {
@@ -278,6 +279,14 @@ func checkC02(c c02Case, ctx *vCtx) *vFailure {
 		ctx.Label("decimal-mode")
 	}
 	f := c.S.Write("c02")
+	fmtArgs := []string{"--no-color"}
+	if c.Layout != "" {
+		fmtArgs = append(fmtArgs, "--date-format", c.Layout)
+		ctx.Label("date-format:" + c.Layout)
+	}
+	argsFor := func(extra ...string) []string {
+		return append([]string{"--today", vFmtDay(9, c.Layout), "-d", f.Book, "-l", f.Log}, append(append([]string{}, fmtArgs...), extra...)...)
+	}
 	type variant struct {
 		name string
 		args []string
@@ -290,7 +299,7 @@ func checkC02(c c02Case, ctx *vCtx) *vFailure {
 		{"reg old reporter", []string{"reg", "--use-old-reg-reporter"}, false, vRegExpect{true, true}},
 	}
 	for _, v := range vs {
-		inv := vInvocation{Args: f.Args(append([]string{"--no-color"}, v.args...)...)}
+		inv := vInvocation{Args: argsFor(v.args...)}
 		run := vRunApp
 		if c.Bin {
 			run = func(i vInvocation) vRun { return vRunBin(i, 20e9) }
@@ -317,7 +326,7 @@ func checkC02(c c02Case, ctx *vCtx) *vFailure {
 			continue
 		}
 		seen[d.Head] = true
-		r := vRunApp(vInvocation{Args: f.Args("--no-color", "summary", d.Head)})
+		r := vRunApp(vInvocation{Args: argsFor("summary", d.Head)})
 		ctx.Run(1)
 		if r.Failed {
 			return vFailf("summary %s failed: %s", d.Head, r)
@@ -356,8 +365,9 @@ func checkC02(c c02Case, ctx *vCtx) *vFailure {
 }
 
 func genC02(t *rapid.T) c02Case {
-	s := vGenScenario(t, vScenOpts{MinDays: 1, MaxDays: 5})
-	return c02Case{S: s, Bin: rapid.IntRange(0, 39).Draw(t, "bin") == 0}
+	layout := []string{"", "", "2006-01-02", "02.01.2006", "2 Jan 2006"}[rapid.IntRange(0, 4).Draw(t, "layout")]
+	s := vGenScenario(t, vScenOpts{MinDays: 1, MaxDays: 5, DateLayout: layout})
+	return c02Case{S: s, Bin: rapid.IntRange(0, 39).Draw(t, "bin") == 0, Layout: layout}
 }
 
 func init() { vRegister("C02", "c02.random", checkC02) }
